@@ -13,8 +13,9 @@
                       offsets / sizes are non-negative
      m_trigger/t_trigger = None   the history meets none of the known findings' triggers:
                       0 truncate below the file size while a dirty list reaches beyond the new size
-                      1 truncate below the file size while a stored chunk lies wholly inside the new size
-                      2 a Read served from a stale visible-interval cache *)
+                      1 a Read served from a stale visible-interval cache
+                    (File.Setattr dropping the chunks that lie wholly inside the new size has been
+                     repaired in weed/filesys/file.go; the model follows the repaired code) *)
 From Coq Require Import List ZArith NArith Bool.
 From SW Require Import proof.DirtyPagesProofs.
 Import ListNotations.
@@ -89,17 +90,8 @@ Theorem c30_flush_is_posix_refuted_temp : exists limit pre, 0 < limit /\ Forall 
 Proof. exact t_flush_refuted. Qed.
 Print Assumptions c30_flush_is_posix_refuted_temp.
 
-(* the hypothesis "no shrinking truncate while pages are dirty" alone is NOT enough: Setattr also
-   drops stored chunks that lie wholly inside the new size (trigger 1, no dirty page involved) *)
-Theorem c30_flush_is_posix_refuted_clean_truncate : exists limit pre, 0 < limit /\ Forall op_ok (pre ++ [Flush]) /\
-  m_trigger limit (pre ++ [Flush]) = Some 1%N /\ t_trigger limit (pre ++ [Flush]) = Some 1%N /\
-  content_of (m_meta (exec mstate (m_step limit) mstate0 (pre ++ [Flush]))) <> pfile (pre ++ [Flush]) /\
-  content_of (t_meta (exec tstate (t_step limit) tstate0 (pre ++ [Flush]))) <> pfile (pre ++ [Flush]).
-Proof. exact truncate_drops_chunks. Qed.
-Print Assumptions c30_flush_is_posix_refuted_clean_truncate.
-
 (* PARTIAL: every history that meets no trigger — in particular every history of writes, flushes,
-   reads and truncates that never cut into dirty data nor skip over a whole stored chunk *)
+   reads and truncates in which no truncate cuts into (or before) data that is still dirty *)
 Theorem c30_flush_is_posix_partial_mem : forall limit pre post,
   Forall op_ok (pre ++ Flush :: post) ->
   m_trigger limit (pre ++ Flush :: post) = None ->
@@ -115,9 +107,9 @@ Proof. exact t_flush_is_posix. Qed.
 Print Assumptions c30_flush_is_posix_partial_temp.
 
 (* ---------- FileHandle.Read (chunk layer + dirty overlay): the full statement "every read returns
-   the POSIX bytes" is refuted by the never-refreshed visible-interval cache (trigger 2) ---------- *)
+   the POSIX bytes" is refuted by the never-refreshed visible-interval cache (trigger 1) ---------- *)
 Theorem c30_handle_read_refuted : exists limit ops, 0 < limit /\ Forall op_ok ops /\
-  m_trigger limit ops = Some 2%N /\ t_trigger limit ops = Some 2%N /\
+  m_trigger limit ops = Some 1%N /\ t_trigger limit ops = Some 1%N /\
   read_data (last (m_run limit ops) (OTrunc [] 0)) <> pread (pfile ops) 0 8 /\
   read_data (last (t_run limit ops) (OTrunc [] 0)) <> pread (pfile ops) 0 8.
 Proof. exact handle_read_refuted. Qed.
@@ -146,6 +138,15 @@ Print Assumptions c30_handle_read_partial_temp.
 Example c30_example_trigger_free :
   m_trigger 4 ex_ops = None /\ t_trigger 4 ex_ops = None /\ Forall op_ok ex_ops.
 Proof. exact ex_trigger_free. Qed.
+
+(* the former witness of the repaired Setattr defect (a truncate that leaves a whole chunk inside the
+   new size) is now trigger-free and resolves to the POSIX file *)
+Example c30_example_truncate_keeps_chunks :
+  m_trigger 16 (w_kept ++ [Flush]) = None /\ t_trigger 16 (w_kept ++ [Flush]) = None /\
+  content_of (m_meta (exec mstate (m_step 16) mstate0 (w_kept ++ [Flush]))) = [1;2;3;4;5;6]%N /\
+  content_of (t_meta (exec tstate (t_step 16) tstate0 (w_kept ++ [Flush]))) = [1;2;3;4;5;6]%N /\
+  pfile (w_kept ++ [Flush]) = [1;2;3;4;5;6]%N.
+Proof. exact w_kept_values. Qed.
 
 Example c30_example_content :
   content_of (m_meta (exec mstate (m_step 4) mstate0 ex_ops)) = [1;2;3;0;0;9;0;0;0;0]%N /\
